@@ -758,6 +758,11 @@ func (h *v7Harness) doBusy(e *v7Event) (res string) {
 func (h *v7Harness) doStep(e *v7Event) (string, bool) {
 	h.forwardCalled, h.forwardFull, h.adopt = false, false, ""
 	h.batch, h.outs = nil, nil
+	if !h.anyLive() {
+		// processBatch would wait on its condition variable for ever (a replayed history on a changed tree)
+		h.out.Count("step_idle")
+		return "step:idle", true
+	}
 	err := h.srv.processBatch()
 	e.adopt = h.adopt
 	if err != nil {
@@ -916,6 +921,9 @@ func (h *v7Harness) run(next func() *v7Event) {
 			break
 		}
 		time.Sleep(time.Millisecond) // fake time: one tick per event (also keeps F22 out of the way)
+		// announce the running history (events so far + the one about to run) so that a death of the whole
+		// test process can be attributed to it
+		v7Announce(h.header(len(h.events)+1) + " " + strings.Join(append(append([]string(nil), h.events...), e.String()), " "))
 		// records of idle slots before the event (records of different slots never share storage)
 		idleRec := map[int]string{}
 		for i := range h.srv.cache.slots {
@@ -1155,6 +1163,11 @@ func (h *v7Harness) stats() {
 			break
 		}
 	}
+}
+
+// v7Announce overwrites <VERIF_OUT>/current.txt with the history that is running.
+func v7Announce(line string) {
+	_ = os.WriteFile(zzverif.OutDir()+"/current.txt", []byte(line+"\n"), 0o644)
 }
 
 // ------------------------------------------------------------------ replay
